@@ -44,12 +44,24 @@ def _uses_strings(terms):
     return False
 
 
-def _goal_conjuncts(g):
+def _goal_conjuncts(g, depth=0):
+    """conjuncts of a goal; `A or (B and C)` / `A -> (B and C)` are distributed: (A or B), (A or C)"""
     if z3.is_and(g):
         out = []
         for c in g.children():
-            out.extend(_goal_conjuncts(c))
+            out.extend(_goal_conjuncts(c, depth))
         return out
+    if depth < 2 and (z3.is_or(g) or z3.is_implies(g)):
+        ch = list(g.children())
+        if z3.is_implies(g):
+            ch = [z3.Not(ch[0]), ch[1]]
+        for k, c in enumerate(ch):
+            if z3.is_and(c):
+                rest = ch[:k] + ch[k + 1:]
+                out = []
+                for part in c.children():
+                    out.extend(_goal_conjuncts(z3.Or(*(rest + [part])), depth + 1))
+                return out
     return [g]
 
 
@@ -91,12 +103,15 @@ def _has_quantifier(t):
     return False
 
 
-def _abstract_apps(terms):
+def _abstract_apps(terms, congruence=True):
     """Replace every ground application of an uninterpreted function by a constant (one per syntactically
-    distinct application, arguments simplified).  Every model of the original is a model of the result
-    (give the constants the values of the applications), so `unsat` carries over: sound for proving."""
+    distinct application, arguments simplified) and add the congruence constraints between applications of
+    the same function (Ackermann's reduction; for functions with many applications the constraints are left
+    out).  Every model of the original is a model of the result (give the constants the values of the
+    applications), so `unsat` carries over: sound for proving."""
     cache = {}
     names = {}
+    by_decl = {}
 
     def has_var(t):
         todo = [t]
@@ -119,11 +134,13 @@ def _abstract_apps(terms):
             ch = [go(c) for c in t.children()]
             d = t.decl()
             if d.kind() == z3.Z3_OP_UNINTERPRETED:
-                key = z3.simplify(d(*ch)).sexpr()
+                app = z3.simplify(d(*ch))
+                key = app.sexpr()
                 r = names.get(key)
                 if r is None:
                     r = z3.Const('app!%d' % len(names), t.sort())
                     names[key] = r
+                    by_decl.setdefault(d.name(), []).append((list(app.children()) if z3.is_app(app) else ch, r))
             else:
                 try:
                     r = d(*ch)
@@ -132,10 +149,24 @@ def _abstract_apps(terms):
         cache[k] = r
         return r
 
-    return [go(t) for t in terms]
+    out = [go(t) for t in terms]
+    if congruence:
+        for name, apps in by_decl.items():
+            if len(apps) > 10:
+                continue
+            for i in range(len(apps)):
+                for j in range(i + 1, len(apps)):
+                    (a1, c1), (a2, c2) = apps[i], apps[j]
+                    if len(a1) != len(a2):
+                        continue
+                    same = [x == y for x, y in zip(a1, a2) if not x.eq(y)]
+                    if any(z3.is_false(z3.simplify(e)) for e in same):
+                        continue
+                    out.append(z3.Implies(z3.And(*same) if len(same) != 1 else same[0], c1 == c2))
+    return out
 
 
-def _by_rewriting(pc, goal):
+def _by_rewriting(pc, goal, external=False):
     """Cheap first attempt: abstract uninterpreted applications, eliminate defined symbols (solve-eqs) and
     simplify.  Decides the many obligations that are pure rewriting with the equations on the path -- where
     the string solvers, given the same equations as word equations, do not terminate."""
@@ -150,8 +181,14 @@ def _by_rewriting(pc, goal):
             s = z3.Solver()
             s.set('timeout', 1000)
             s.add(*[sub[i] for i in range(len(sub))])
-            if s.check() != z3.unsat:
-                return False
+            r = s.check()
+            if r == z3.unsat:
+                continue
+            if r == z3.unknown and external:
+                v = _external(s.to_smt2(), [sub[i] for i in range(len(sub))], only_cvc5=True, quick=True)
+                if v is not None and v.status == 'unsat':
+                    continue
+            return False
         return True
     except Exception:
         return False
@@ -244,7 +281,14 @@ def _instantiated(flat, goal):
                     cands.setdefault(key, a)
         for a in cands.values():
             hyps.extend(_goal_conjuncts(z3.substitute_vars(h.body(), a)))
-    return hyps, goal
+    seen = set()
+    uniq = []
+    for h in hyps:
+        k = h.get_id()
+        if k not in seen:
+            seen.add(k)
+            uniq.append(h)
+    return uniq, goal
 
 
 def _discharge1(pc, goal, want_smt2=False, all_backends=False, scale=1):
@@ -262,7 +306,7 @@ def _discharge1(pc, goal, want_smt2=False, all_backends=False, scale=1):
         if sk is not None:
             ok = True
             for g in _goal_conjuncts(z3.simplify(sk[1])):
-                if _by_rewriting(sk[0], g):
+                if _by_rewriting(sk[0], g, external=True):
                     continue
                 v = _discharge2(sk[0], g, False, False, scale, quick=True)
                 if v.status != 'unsat':
